@@ -75,11 +75,13 @@ pub fn check(c: &Case, forms_seen: &mut Vec<String>) -> Result<u64, String> {
             if split16(&reasy) != want {
                 return Err("harness: libsodium easy != detached".into());
             }
-            let mut ct = vec![0u8; msg.len() + 16];
+            // caller-provided output buffers are pre-filled with a non-zero pattern: nothing may depend on their contents
+            let dirty = |n: usize| -> Vec<u8> { (0..n).map(|i| 0xc3u8 ^ (i as u8).wrapping_mul(29)).collect() };
+            let mut ct = dirty(msg.len() + 16);
             e(crypto_secretbox_easy(&mut ct, msg, &nonce, &key), "crypto_secretbox_easy")?;
             expect(&mut cx, "crypto_secretbox_easy", split16(&ct), &want)?;
-            let mut ct = vec![0u8; msg.len()];
-            let mut tag = [0u8; 16];
+            let mut ct = dirty(msg.len());
+            let mut tag = [0x5au8; 16];
             crypto_secretbox_detached(&mut ct, &mut tag, msg, &nonce, &key);
             expect(&mut cx, "crypto_secretbox_detached", (tag.to_vec(), ct), &want)?;
             let mut buf = msg.clone();
@@ -120,11 +122,11 @@ pub fn check(c: &Case, forms_seen: &mut Vec<String>) -> Result<u64, String> {
             // ---------------- box
             let (rct, rtag) = sodium::box_detached(msg, &nonce, &rpk, &ssk).ok_or("harness: box_detached")?;
             let want: Out = (rtag.to_vec(), rct);
-            let mut ct = vec![0u8; msg.len() + 16];
+            let mut ct = dirty(msg.len() + 16);
             e(crypto_box_easy(&mut ct, msg, &nonce, &rpk, &ssk), "crypto_box_easy")?;
             expect(&mut cx, "crypto_box_easy", split16(&ct), &want)?;
-            let mut ct = vec![0u8; msg.len()];
-            let mut tag = [0u8; 16];
+            let mut ct = dirty(msg.len());
+            let mut tag = [0x5au8; 16];
             crypto_box_detached(&mut ct, &mut tag, msg, &nonce, &rpk, &ssk);
             expect(&mut cx, "crypto_box_detached", (tag.to_vec(), ct), &want)?;
             let mut buf = msg.clone();
@@ -171,8 +173,8 @@ pub fn check(c: &Case, forms_seen: &mut Vec<String>) -> Result<u64, String> {
             if split16(&wire) != want {
                 return Err("harness: afternm != box".into());
             }
-            let mut ct = vec![0u8; msg.len()];
-            let mut tag = [0u8; 16];
+            let mut ct = dirty(msg.len());
+            let mut tag = [0x5au8; 16];
             crypto_box_detached_afternm(&mut ct, &mut tag, msg, &nonce, &k);
             expect(&mut cx, "crypto_box_detached_afternm", (tag.to_vec(), ct), &want)?;
             let mut buf = msg.clone();
@@ -203,7 +205,7 @@ pub fn check(c: &Case, forms_seen: &mut Vec<String>) -> Result<u64, String> {
             open_all(&mut cx, &mat)?;
 
             // ---------------- sealed boxes (ephemeral key chosen inside dryoc)
-            let mut sealed = vec![0u8; msg.len() + 48];
+            let mut sealed = dirty(msg.len() + 48);
             e(crypto_box_seal(&mut sealed, msg, &rpk), "crypto_box_seal")?;
             check_sealed(&mut cx, "crypto_box_seal", &sealed, msg, &rpk, &rsk)?;
             let b = e(DryocBox::seal_to_vecbox(msg, &rpk.into()), "seal_to_vecbox")?;
@@ -392,7 +394,7 @@ pub fn check_history(c: &HistCase) -> Result<u64, String> {
                 let want = sodium::box_easy(&msg, &nonce, &ids[r].0, &ids[s].1).ok_or("harness: box_easy")?;
                 let got: Vec<u8> = match form % 5 {
                     0 => {
-                        let mut ct = vec![0u8; msg.len() + 16];
+                        let mut ct = vec![0xe7u8; msg.len() + 16];
                         e(crypto_box_easy(&mut ct, &msg, &nonce, &ids[r].0, &ids[s].1), "crypto_box_easy")?;
                         ct
                     }
